@@ -13,7 +13,6 @@ use ckc_rs::cards::two::Two;
 use ckc_rs::cards::{HandRanker, HandValidator};
 use proptest::prelude::*;
 use serde_json::{json, Value};
-use std::cell::RefCell;
 use std::collections::BTreeMap;
 
 // ---------------------------------------------------------------------------------------------
@@ -443,22 +442,22 @@ pub fn run(run: &mut Run) -> PResult {
 
     // R: proptest
     {
-        let st = RefCell::new(Stats::new());
-        let cases: u32 = if thorough { 5_000_000 } else { 400_000 };
-        let res = pt::run(run.seed, 0xC04, cases, &spec_strategy(), |spec| {
+        let st = engine::RStats::new();
+        let cases: u32 = if thorough { 16_000_000 } else { 2_000_000 };
+        let res = pt::run_sharded(run.seed, 0xC04, cases, &spec_strategy, &|spec: Spec| {
             let ws = build(&spec, &alpha);
             match check_hand(&ws) {
                 Ok(k) => {
-                    st.borrow_mut().note(&ws, k);
+                    st.note(hash_words(&ws), k != Kind::Valid, Some(&format!("size {} {:?}", ws.len(), k)), || json!({"hand": card::render_hand(&ws), "kind": format!("{:?}", k)}));
                     Ok(())
                 }
                 Err(f) => {
-                    st.borrow_mut().frozen = true;
+                    st.freeze();
                     Err(format!("{}: {}", f.0, f.1))
                 }
             }
         });
-        st.borrow_mut().flush(run, "proptest hands of 2..7 arbitrary words", "proptest", None, "45% valid / 25% one defect / 30% 2..4 defects");
+        st.flush(run, "proptest hands of 2..7 arbitrary words", "proptest (8 shards)", None, "45% valid / 25% one defect / 30% 2..4 defects");
         if let Err(f) = res {
             let ws = build(&f.value, &alpha);
             let e = check_hand(&ws).err().expect("shrunk case must still fail");
